@@ -30,13 +30,15 @@ var commands = map[string]func([]string){
 	"parse-cases":    cmdParseCases,
 	"parse-texts":    cmdParseTexts,
 	"parse-groups":   cmdParseGroups,
+	"parse-families": cmdParseFamilies,
 	"lex-enum":       cmdLexEnum,
 	"lex-one":        cmdLexOne,
-	"sql-read":       cmdSQLRead,
 	"quote-enum":     cmdQuoteEnum,
 	"quote-one":      cmdQuoteOne,
-	"parse-families": cmdParseFamilies,
 	"fold-groups":    cmdFoldGroups,
+	"fold-text":      cmdFoldText,
+	"sql-read":       cmdSQLRead,
+	"sql-cases":      cmdSQLCases,
 }
 
 func main() {
